@@ -80,9 +80,9 @@ func computeDependenciesAndInclusion(funcs []*provider, initF *provider) ([]*pro
 		if fm.mustConsume != nil {
 			fm.d.mustConsumeFlow[outputParams] = true
 		}
-		if fm.consumptionOptional == nil {
-			fm.d.mustConsumeFlow[returnParams] = true
-		}
+		// returned values must be consumed; checkFlows exempts the individual
+		// types that are marked ConsumptionOptional
+		fm.d.mustConsumeFlow[returnParams] = true
 		if fm.required {
 			fm.whyIncluded = "required"
 		} else if fm.desired {
